@@ -164,8 +164,11 @@ def _walk(ctx):
     ns = ["1", "2", "11"] if ctx.quick else ["0", "1", "2", "3", "11", "45", "120"]
 
     def it(shard, nshards):
-        for i, (locale, lang) in enumerate(data.all_locales()):
-            if i % nshards != shard:
+        # a language and its regional locales are walked in the same worker process (they share per-language caches),
+        # the base language first for half of the languages and last for the other half
+        order = data.language_order()
+        for i, (locale, lang) in enumerate(_grouped_locales(ctx.seed)):
+            if order.index(lang) % nshards != shard:
                 continue
             regional = locale != lang
             if ctx.quick and regional and derive_seed(ctx.seed, "pick", locale) % 4 != 0:
@@ -227,6 +230,18 @@ def sampled(draw):
             c["phrase"] = phrases[draw(st.integers(0, len(phrases) - 1))]
         c["n"] = n
     return c
+
+
+def _grouped_locales(seed):
+    out = []
+    lld = data.language_locale_dict()
+    for lang in data.language_order():
+        regional = [(loc, lang) for loc in lld.get(lang, [])]
+        if derive_seed(seed, "base-first", lang) % 2:
+            out.extend([(lang, lang)] + regional)
+        else:
+            out.extend(regional + [(lang, lang)])
+    return out
 
 
 def stages(ctx):
